@@ -180,8 +180,10 @@ def DataFormat.validate (df : DataFormat) : Bool :=
   | .delimited =>
     decThousandsOk &&
     (df.lineDelim == .none || df.lineDelim.asChar != some df.escape) &&
+    df.escape != df.itemDelim &&
     df.lineDelim.asChar != some df.itemDelim &&
     df.itemDelim != df.quote &&
+    !(df.itemDelim == '\n' || df.itemDelim == '\r') &&
     df.lineDelim.asChar != some df.quote
   | .fixed => decThousandsOk
   | _ => true
